@@ -415,7 +415,7 @@ func init() {
 		"Base58 is a recording stub (the bytes handed to base58.Encode are compared)",
 		"counterexamples behind the idealised HMAC are confirmed natively by walking the child index from the model's value (up to 8192 derivations)",
 	}, []string{"a child private scalar equal to 0 ((IL+k) mod n = 0) is not refused by Child although BIP32 declares it invalid: one HMAC value in 2^256, cannot be exhibited", "neuter/derive commutation (needs the group-homomorphism axiom; not encoded)", "the hash and curve primitives themselves"},
-		"all parent keys, all 2^32 indices (symbolic), private and public; seed lengths 0..66", "same")
+		"all parent keys, all 2^32 indices (symbolic), private and public; seed lengths 0..66 and {127..129, 255..257, 272, 288, 320, 511, 512, 528, 576, 65552, 65600}", "same")
 	meta("C05", []string{
 		"crypto idealised and Base58 stubbed as in C04; natively the checksum bytes of a model are recomputed with the real double-SHA256 before parsing",
 		"derived private keys are assumed non-zero and derived public keys on the curve (contract of the idealised curve)",
